@@ -23,9 +23,9 @@ T = {
  'C14': ('exploration', 'reference lookup written from the statement vs. the handler the real multiplexer invokes and what it can read', 'DESIGN.md 5/C14'),
  'C15': ('exploration', 'offline stream/sequence checker over recorded transfers between two real sessions + raw IBB adversary + forced wake-up scenarios + stall rule; race detector', 'DESIGN.md 5/C15'),
  'C16': ('exploration', 'reference model of XEP-0106 vs. String/Bytes/Span/Transform under a contract-correct chunking driver', 'DESIGN.md 5/C16'),
- 'C17': ('exploration', 'metamorphic monitor (same document under many read chunkings) + losslessness + bracket discipline', 'DESIGN.md 5/C17'),
+ 'C17': ('exploration', 'metamorphic monitor (same document under many read chunkings) + losslessness + bracket discipline + groups of spent/interleaved/concurrent decoders; race detector', 'DESIGN.md 5/C17'),
  'C18': ('exploration', 'occupant model over an event log of a scripted room service + forced scenarios at yield hooks; race detector', 'DESIGN.md 5/C18'),
- 'C19': ('exploration', 'five-law monitor (well-formed, encoders agree, fixpoint, round trip, no panic) over a registry of payload types', 'DESIGN.md 5/C19'),
+ 'C19': ('exploration', 'five-law monitor (well-formed, encoders agree, fixpoint, round trip, no panic) over a registry of payload types, plus wire-level reference monitors for payloads without an exported type (MUC join options); race detector for concurrent encodes', 'DESIGN.md 5/C19'),
  'C20': ('exploration', 'independent XEP-0115 reference + permutation invariance over generated and unmarshalled info values', 'DESIGN.md 5/C20'),
 }
 TEXT = {
